@@ -15,8 +15,8 @@ use std::io::{Cursor, Read};
 pub struct Built {
     pub bytes: Vec<u8>,
     pub header_len: usize,
-    /// bytes at the destination when each flush() returned (C14)
-    pub flush_snaps: Vec<(usize, Vec<u8>)>,
+    /// (plaintext position, bytes at the destination) when each flush() returned (C14)
+    pub flush_snaps: Vec<(u64, usize)>,
     /// label -> (id, content)
     pub files: HashMap<String, (u64, Vec<u8>)>,
     pub final_pos: u64,
@@ -24,6 +24,11 @@ pub struct Built {
 
 /// Execute effective labels on the real writer
 pub fn build_archive(par: &Par, labels: &[Value], sink: SharedSink) -> Result<Built, String> {
+    build_archive_opt(par, labels, sink, false)
+}
+
+/// `flush_all`: call flush() after every label and remember what had reached the destination
+pub fn build_archive_opt(par: &Par, labels: &[Value], sink: SharedSink, flush_all: bool) -> Result<Built, String> {
     let mut d = Driver::new(par, sink.clone()).map_err(|e| format!("{e:?}"))?;
     let header_len = sink.snapshot().len();
     let mut names: HashMap<u64, String> = HashMap::new();
@@ -41,8 +46,13 @@ pub fn build_archive(par: &Par, labels: &[Value], sink: SharedSink) -> Result<Bu
             "add" => {
                 names.insert(lab["id"].as_u64().unwrap(), lab["n"].as_str().unwrap().to_string());
             }
-            "flush" => flush_snaps.push((i, sink.snapshot())),
+            "flush" => flush_snaps.push((d.w.verif_state().position, sink.snapshot().len())),
             _ => {}
+        }
+        if flush_all && lab["op"] != "finalize" {
+            let _ = i;
+            d.w.flush().map_err(|e| format!("flush: {e}"))?;
+            flush_snaps.push((d.w.verif_state().position, sink.snapshot().len()));
         }
     }
     let final_pos = d.w.verif_state().position;
@@ -261,7 +271,8 @@ pub fn main(args: &[String]) {
         };
         let par = Par::from_json(&scen["par"]);
         let labels = scen["labels"].as_array().unwrap();
-        let b = match build_archive(&par, labels, SharedSink::new()) {
+        let flush_all = getb(scen, "flush_all");
+        let b = match build_archive_opt(&par, labels, SharedSink::new(), flush_all) {
             Ok(b) => b,
             Err(e) => {
                 tw.push(&json!({"ev": "builderror", "scen": k, "detail": e}));
@@ -309,10 +320,23 @@ pub fn main(args: &[String]) {
                 if let Some(list) = scen.get("cuts").and_then(Value::as_array) {
                     cuts = list.iter().map(|x| x.as_u64().unwrap() as usize).collect();
                 }
+                if flush_all {
+                    // C14: the cuts are exactly what had reached the destination when each flush() returned
+                    for (fpos, n) in &b.flush_snaps {
+                        let mut ev = repair_once(&par, &bytes[..*n], *mode == "unauth", &b.files);
+                        ev["ev"] = json!("repair");
+                        ev["cut"] = json!(n);
+                        ev["flushpos"] = json!(fpos);
+                        tw.push(&ev);
+                        nrep += 1;
+                    }
+                    continue;
+                }
                 for n in cuts {
                     let mut ev = repair_once(&par, &bytes[..n], *mode == "unauth", &b.files);
                     ev["ev"] = json!("repair");
                     ev["cut"] = json!(n);
+                    ev["flushpos"] = json!(-1);
                     tw.push(&ev);
                     nrep += 1;
                 }
